@@ -49,6 +49,7 @@ func replayCmd(verifDir, repoDir, path string) int {
 		fmt.Fprintln(os.Stderr, "replay: file has no session")
 		return 2
 	}
+	curSimProcs = rp.SimProcs
 	if rp.Variant != "" {
 		// the same knobs / hash functions (by name, file, value) must still exist in the current tree
 		var ks []instr.Knob
